@@ -19,6 +19,7 @@ type PropUnit struct {
 	Pkg       string   `json:"pkg"`
 	Func      string   `json:"func"`
 	Groups    []string `json:"groups,omitempty"`    // claimed obligation groups (default: all)
+	Tier      string   `json:"tier,omitempty"`      // "thorough": the unit is checked only by the thorough tier (slow obligations)
 	Claim     []string `json:"claim,omitempty"`     // obligation-name substrings claimed in addition to the groups
 	Unclaimed []string `json:"unclaimed,omitempty"` // obligation-name substrings not claimed (with reason in Why)
 	Why       string   `json:"why,omitempty"`
@@ -328,6 +329,16 @@ func runCheck(id, tier string, seed int) int {
 	// a unit with func "*" stands for every function of the package that is not listed explicitly (same groups)
 	var expanded []PropUnit
 	explicit := map[string]bool{}
+	{
+		var keep []PropUnit
+		for _, pu := range spec.Units {
+			if pu.Tier == "thorough" && tier != "thorough" {
+				continue
+			}
+			keep = append(keep, pu)
+		}
+		spec.Units = keep
+	}
 	for _, pu := range spec.Units {
 		if pu.Func != "*" {
 			explicit[pu.Pkg+"|"+pu.Func] = true
